@@ -64,16 +64,21 @@ CONTAINER_NOTE = COMMON_NOTE + (" Sums over a contents dict are the weighted fin
                                 "lemmas stated in lemmas/Sigma.lean. Unit.convert_from is used through its contract "
                                 "(the spec function verified by C06).")
 CHECKS['C01'] = dict(category='proof', design_ref='DESIGN.md §7 C01', technique=CONTAINER_TECH, note=CONTAINER_NOTE + (
-    " Covered in this check: the container-to-container core (Container._transfer) for contents of arbitrary size. "
-    "The plate/slice pairings (Container._transfer_slice, PlateSlicer._transfer) are NOT yet part of this check."),
+    " Plate level: the real Slicer.apply/set/get, Container._transfer_slice, PlateSlicer._transfer, Plate.transfer are "
+    "executed on plates of small concrete shapes (2x3, 3x3 for same-plate cases; every slice geometry kind incl. "
+    "stepped slices, lists, repeated list entries, same-named plates) with abstract wells and Container._transfer used "
+    "modularly (event with fresh results); the obligation `linear` (every state consumed at most once, every produced "
+    "state placed exactly once, nothing dropped) plus `locality` lift per-event conservation to the whole operation "
+    "(lemma sum_pairs). Bounded in the plate shape, unbounded in contents and quantities."),
     text=("Container._transfer is executed symbolically for every unit family (L with all prefixes; g, mol, U), "
           "request class (negative, zero from empty, in range, more than held) and capacity kind, with source and "
           "destination contents as maps of arbitrary size: the per-substance move loop is cut by a quantified "
           "invariant (init/step discharged), and at every return `for all s: src'[s] + dst'[s] = src[s] + dst[s]` "
           "and the key-set clause are discharged. Unbounded in the number of substances and in all numeric inputs."))
 CHECKS['C02'] = dict(category='proof', design_ref='DESIGN.md §7 C02', technique=CONTAINER_TECH, note=CONTAINER_NOTE + (
-    " Drift of the 10-digit internal rounding over long chains is outside A2 and not claimed. The n-well dispense "
-    "lemma over plate pairings is not yet part of this check."),
+    " Drift of the 10-digit internal rounding over long chains is outside A2 and not claimed. Plate level (n wells "
+    "lose/gain n*q): obligations `count`, `same-args`, `linear` on the event log of the real pairing code for plates of "
+    "small concrete shape (bounded in the shape) — with `size` per event this gives n*q."),
     text=("At every normal return of Container._transfer with a request q in range: every substance of the source is "
           "reduced by the same fraction r = q/measure_u(source) and exactly that aliquot is added to the destination "
           "(`uniform`), and the moved size measured in the unit of q (total volume, total mass, non-enzyme moles, "
@@ -103,7 +108,9 @@ CHECKS['C11'] = dict(category='proof', design_ref='DESIGN.md §7 C11', technique
           "total in the fill unit equals the target, only the solvent increased, capacity respected, targets below "
           "the current quantity refused, reachable targets accepted. Contents of arbitrary size incl. enzymes."))
 CHECKS['C17'] = dict(category='proof', design_ref='DESIGN.md §7 C17', technique=CONTAINER_TECH, note=CONTAINER_NOTE + (
-    " Plate/slice remove and the recipe's trash accounting are not yet part of this check."),
+    " Plate/slice remove: real PlateSlicer.remove / Plate.remove / Slicer.apply on plates of small concrete shape with "
+    "Container.remove used modularly (per-well, locality, linear, frame). The recipe's trash accounting is not yet "
+    "part of this check."),
     text=("Container.remove(what) for what = a substance or one of the three classes: no selected substance remains, "
           "every other substance keeps membership and amount (the dict comprehension is modelled as a pointwise "
           "filter, quantified over all substances), the reported volume is the sum of the remaining volumes, name and "
@@ -123,6 +130,21 @@ CHECKS['C16'] = dict(category='proof', design_ref='DESIGN.md §7 C16',
           "stage can be ended); bake closes an open stage, returns only when #used == #declared, and locks. Unbounded "
           "in the call history. Bounded stand-in (labelled): all call sequences up to length 4 (5 thorough) over a "
           "small alphabet on the real package against a reference state machine."))
+
+CHECKS['C07'] = dict(category='proof', design_ref='DESIGN.md §7 C07',
+    technique='contract-based deductive verification: the real pairing/apply code executed on plates of small concrete shape with abstract wells; container operations used modularly as events; dataflow obligations (dispatch, pairing, linear, locality, per-well, same-args)',
+    note=COMMON_NOTE + (" Bounded in the plate shape (2x3; 3x3 for same-plate cases) — each shape/geometry is a complete "
+                        "proof over all well contents and operands; numpy vectorize/frompyfunc/basic slicing semantics are "
+                        "trusted (T3) incl. the extra probing call of vectorize without cache/otypes. The recipe-step half "
+                        "(bake) is not yet part of this check. Known findings: overlapping regions of one plate; "
+                        "list selectors in plate-to-plate transfers."),
+    text=("Plate.transfer / Container.transfer with every combination of container, whole plate and slice geometries "
+          "(single well, row, column, rectangle, stepped, list, repeated list entry), plate-to-plate 1->N, N->1, N->N, "
+          "mismatching shapes, same plate, same-named plates; PlateSlicer/Plate.remove and fill_to: every documented "
+          "kind is dispatched (no TypeError/AttributeError), wells are paired as documented and other shape "
+          "combinations raise ValueError, each addressed well receives the result of the stand-alone container "
+          "operation on its old state with the operation's own operands, no state is used twice or dropped, wells "
+          "outside the selection are unchanged in place."))
 
 NOT_YET = "check not built yet in this round (under construction; not claimed)"
 NOT_APPLICABLE = {}
